@@ -115,7 +115,10 @@ CHECKS = {
                 "string / number / negative / huge / array / empty / zero / truncated / odd length; correctly signed registrations that do not extend expiry or slots). Oracle: a "
                 "registration is recorded only if the stored receipt verifies under the tower id the user gave and strictly extends the previous one; an acknowledgement signed "
                 "by another key => status misbehaving, proof row persisted, zero further requests to that tower on later revocations; after every reply the process is alive, "
-                "stderr has no panic text, listtowers answers and the next notification is answered. distinct = distinct (endpoint, reply kind).",
+                "stderr has no panic text, listtowers answers and the next notification is answered. Each client process ends with the retry-path variant: the tower is down when "
+                "the revocation arrives, the retrier idles, the tower comes back and acknowledges the retried appointment with a signature by another key => misbehaving + proof; "
+                "then the client is killed and restarted on the same data directory: zero requests may reach that tower (at start-up or on a new revocation) and it is still "
+                "shown as misbehaving. distinct = distinct (endpoint, reply kind).",
         "assumptions": ["6 replies per client process, each against a fresh tower that is abandoned afterwards", "the retry path is exercised by C05/C13 with the same reply kinds"],
     },
     "C06": {
@@ -159,7 +162,8 @@ CHECKS = {
         "engines": lambda tier: [{"engine": "e1c", "shards": 16, "args": {"cases": 40 if tier == "thorough" else 3, "max_points": 3000 if tier == "thorough" else 500}}],
         "level": "fault_enumeration",
         "rule": "fault space = for each history H (an E1 history of 12-40 steps that passed every sequential monitor; 1000 slots per registration so a lost request "
-                "cannot cascade): EVERY crash point hit inside an operation (before/after each durable write, before/after each explicit commit, before every node "
+                "cannot cascade; plus as many scripted 'lifecycle' histories that drive trackers to their 100th confirmation and subscriptions past their expiry + grace "
+                "one block per poll, of which only the crash points of that final window are enumerated): EVERY crash point hit inside an operation (before/after each durable write, before/after each explicit commit, before every node "
                 "RPC and every block-source call) plus the durable-write points and a sample of the download points of every bootstrap; and for every multi-block "
                 "poll a failed download of its 1st..4th block followed by a restart. Each fault = one full re-execution of H: the observer unwinds at the k-th point, "
                 "all tower objects are dropped (sqlite rolls back open transactions), the bootstrap of main.rs runs again on the same file, the request in flight is "
@@ -210,8 +214,9 @@ CHECKS = {
                 "without H's next mined blocks arriving meanwhile; plus failures of 1-3 consecutive block-source calls at the start / middle / end of every poll with "
                 ">= 4 calls. Tower calls run on worker threads whose every lock and condvar operation goes through the scheduler observer, so 'the call waits for the "
                 "reachability signal holding these locks' is observed as a state; time is virtual (bounded waits expire only when the harness ticks the clock). "
-                "Oracle (bounded progress): (1) the call that hit the outage never returns with its RPC given up; (2) once a call is waiting for the node, all four "
-                "public endpoints answer 'unavailable'; (3) every poll issued during the outage returns; (4) after the node is back, within 2 polls and 3 clock "
+                "Oracle (bounded progress): (1) the call that hit the outage never returns with its RPC given up; (1b) a call that neither returns nor parks itself waiting "
+                "for the node while > 400 of its RPCs fail with transport errors has noticed the outage without waiting for it to end: violation (with the value of the "
+                "reachability flag the public API consults); (2) once a call is waiting for the node, all four public endpoints answer 'unavailable'; (3) every poll issued during the outage returns; (4) after the node is back, within 2 polls and 3 clock "
                 "ticks the interrupted call completes, the API is available again, and (5) from H's next poll on the database equals the uninterrupted run's "
                 "(every breach answered, nothing dropped). non-trivial = fault reached; distinct = distinct (history, fault).",
         "assumptions": E1_ASSUME[:2] + [
